@@ -32,12 +32,14 @@ class blocks:
         H = size if hop is None else hop
         pad = eval(inp["pad"]) if "pad" in inp else "pad"
         want = blocks.model(L, size, hop, pad)
-        for via in ("function", "Stream.blocks"):
+        for via in ("function", "Stream.blocks", "list", "tuple", "range"):
             src = Counting(range(L))
             if via == "function":
                 g = real_blocks(src, size=size, hop=hop, padval=pad)
-            else:
+            elif via == "Stream.blocks":
                 g = iter(Stream(src).blocks(size=size, hop=hop, padval=pad))
+            else:       # a re-iterable container given directly
+                g = real_blocks({"list": list, "tuple": tuple, "range": lambda r: r}[via](range(L)), size=size, hop=hop, padval=pad)
             if src.pulled != 0:
                 return "%s: construction read %d items" % (via, src.pulled)
             got = []
@@ -50,7 +52,7 @@ class blocks:
                 got.append(r[1])
                 j = len(got)
                 if j <= len(want) and len(want[j - 1]) == size and all(isinstance(v, int) and not isinstance(v, bool) for v in want[j - 1]) and "pad" not in inp:
-                    if src.pulled != (j - 1) * H + size:
+                    if via in ("function", "Stream.blocks") and src.pulled != (j - 1) * H + size:
                         return "%s: block %d available after %d reads, property says (j-1)*hop+size=%d" % (via, j, src.pulled, (j - 1) * H + size)
                 if len(got) > len(want) + 2:
                     break
